@@ -52,7 +52,7 @@ impl Prop for C07 {
   const ID: &'static str = "C07";
   fn max_shrink_iters() -> u32 { 1000 }
   fn budget(t: Tier) -> u32 { t.pick(6_000, 120_000) }
-  fn timeout_ms(_t: Tier) -> u64 { 10_000 }
+  fn timeout_ms(_t: Tier) -> u64 { 40_000 } // the slowest terminating case met so far needs 6.8 s of CPU alone (a chunk-swapped image, seed 1); 10 s was too close under load
   fn timeout_is_violation() -> bool { true }
   fn rlimit_as_mb() -> u64 { 2048 }
   fn stack_mb() -> usize { 64 }
